@@ -705,6 +705,12 @@ func isHexByte(b byte) bool { return (b >= '0' && b <= '9') || (b >= 'a' && b <=
 func streamC20(c *Ctx) {
 	c.Rule = "every public call of every stream runs under recover(); this stream crosses criteria shapes (negated In/Like/Exists/Contains/MatchFunc, field-reference and nil operands, deep trees) x {no index, any index} x {missing collection / index / document} x {after Close} x backends, plus direct calls of the document, query and index APIs with unusual but well-typed arguments; " +
 		"a panic or a call that does not return within the deadline is a violation. non-trivial = distinct (operation, state kind) executed"
+	for _, be := range backendsAll {
+		// binary values ([]byte): stored as they are, they take part in every comparison, sort and index
+		if !binaryValues(c, be) {
+			return
+		}
+	}
 	dr := StartDriver(c.DriverBin)
 	defer dr.Close()
 	nHist := c.N(100, 1500)
